@@ -35,6 +35,15 @@ EXPECTED_PROBES = {
             'end_beyond_length', 'negative_bound', 'change_point_inside_range'],
     'C07': ['selection_none', 'selection_absent', 'selection_present', 'selection_hits_equal_instances',
             'selection_hidden_below_conflicting', 'two_or_more_span_range_end'],
+    'C03': ['multi_parameter_colour_next_to_other_setting', 'conflicting_or_shadowed_settings', 'invalid_setting_present',
+            'unparsable_setting_present'],
+    'C11': ['non_uniform_receiver:split', 'non_uniform_receiver:replace', 'non_uniform_receiver:strip',
+            'non_uniform_receiver:partition', 'non_uniform_receiver:splitlines', 'non_uniform_receiver:assign',
+            'replace_two_or_more_matches_plain', 'replace_two_or_more_matches_formatted_replacement',
+            'pieces_of_formatted_receiver', 'separator_text_recurs_in_piece'],
+    'C16': ['empty_match', 'adjacent_matches', 'count_cuts_matches', 'case_insensitivity_matters',
+            'plain_pattern_with_metacharacters'],
+    'C17': ['found_forward', 'found_reverse', 'start_inside_a_run', 'selection_on_proper_subrange'],
     'C12': ['pad_left_extend_formatted', 'pad_left_no_extend_formatted', 'pad_right_only_extend_formatted',
             'pad_right_only_no_extend_formatted', 'center_odd_padding', 'fill_is_grammar_character'],
 }
